@@ -52,6 +52,16 @@ type Obs struct {
 	labels []string
 	extra  int64
 	ntKeys []string
+	bulk   map[string]int64
+}
+
+// NTBulk records n non-trivial units that are distinct by construction (an exhaustive
+// enumeration); prefix names the enumeration so that it is counted once.
+func (o *Obs) NTBulk(prefix string, n int64) {
+	if o.bulk == nil {
+		o.bulk = map[string]int64{}
+	}
+	o.bulk[prefix] += n
 }
 
 // NT marks the case as non-trivial; key (may be "") identifies it for distinct
@@ -117,6 +127,7 @@ type Rec struct {
 	last    *lastFail
 	infl    bool
 	notes   []string
+	bulk    map[string]int64
 }
 
 type lastFail struct {
@@ -265,7 +276,15 @@ func (r *Rec) observe(sub string, c any, o *Obs) {
 	for _, k := range o.ntKeys {
 		addNT(k)
 	}
-	if o.nt || len(o.ntKeys) > 0 || r.sampleN < 2 {
+	for k, n := range o.bulk {
+		if r.bulk == nil {
+			r.bulk = map[string]int64{}
+		}
+		if n > r.bulk[sub+"|"+k] {
+			r.bulk[sub+"|"+k] = n
+		}
+	}
+	if o.nt || len(o.ntKeys) > 0 || len(o.bulk) > 0 || r.sampleN < 2 {
 		r.sampleN++
 		// keep the 1st, 2nd, 4th, 8th ... non-trivial case as samples (deterministic)
 		if r.sampleN&(r.sampleN-1) == 0 && len(r.samples) < 14 {
@@ -549,6 +568,7 @@ type result struct {
 	WallS       float64              `json:"wall_s"`
 	Replay      bool                 `json:"replay_mode"`
 	GoMaxProcs  int                  `json:"gomaxprocs"`
+	Bulk        map[string]int64     `json:"distinct_by_enumeration"`
 }
 
 // Finish writes the per-process result file ($VERIF_OUT) and fails the test when
@@ -557,7 +577,10 @@ func (r *Rec) Finish() {
 	out := os.Getenv("VERIF_OUT")
 	res := result{Property: r.ID, Tier: r.Tier, Seed: r.Seed, Shard: r.Shard, Evaluations: r.evals, Distinct: len(r.nt), NTOverflow: r.ntOver,
 		Labels: r.labels, Samples: r.samples, Subs: r.subs, Known: r.hits, KnownListed: r.known, Excluded: r.excl, Violations: r.viols,
-		Assumptions: r.assume, Notes: r.notes, WallS: time.Since(r.start).Seconds(), Replay: r.replay != nil, GoMaxProcs: runtime.GOMAXPROCS(0)}
+		Assumptions: r.assume, Notes: r.notes, WallS: time.Since(r.start).Seconds(), Replay: r.replay != nil, GoMaxProcs: runtime.GOMAXPROCS(0), Bulk: r.bulk}
+	for _, n := range r.bulk {
+		res.Distinct += int(n)
+	}
 	if out != "" {
 		// hashes of distinct non-trivial cases, for merging across shards
 		hf := out + ".hashes"
